@@ -64,6 +64,8 @@ structure FieldOcc where
   args : List (String × DValue)
   sels : List Sel
   pos : Pos
+  /-- (model only) the static type parameter under which the occurrence was collected -/
+  st : String := ""
   deriving Repr, Inhabited, BEq
 
 def Sel.key (al : Option String) (n : String) : String := al.getD n
